@@ -4,7 +4,8 @@ from .. import soups, px, contexts, monitor, docgrammar
 from ..alphabets import SIG, SIG_SMALL, EVERYTYPE_TOKENS, STRUCTURAL
 from ..engine import exc_key, exc_detail, ddmin, hyp_run, Result
 from ..models import minitok
-from ..contexts import EXTRA_TOKENS
+from ..contexts import EXTRA_TOKENS, OPTIONS_TOKENS
+from ..alphabets import LEGACY
 from .c20 import model as linecol_model
 
 ID = 'C05'
@@ -28,7 +29,8 @@ ASSUMPTIONS = [
 ]
 NSHARDS = 16
 ALPHA_EVERY = SIG_SMALL + EVERYTYPE_TOKENS
-ALPHAS = {'SIG': SIG, 'EVERY': ALPHA_EVERY, 'SMALL': SIG_SMALL, 'EXTRA': EXTRA_TOKENS}
+ALPHAS = {'SIG': SIG, 'EVERY': ALPHA_EVERY, 'SMALL': SIG_SMALL, 'EXTRA': EXTRA_TOKENS,
+          'OPTIONS': OPTIONS_TOKENS, 'LEGACY': LEGACY}
 FAULTS = ['{', '}', '$', '\\(', '\\)', '\\[', '\\]', '\\begin{x}', '\\end{x}',
           '\\begin{itemize}', '\\end{itemize}']
 
@@ -51,6 +53,8 @@ def plan(tier, seed):
     shards += [('soup', 'every-nounknown', 'EVERY', 2 if tier == 'quick' else 3, k)
                for k in range(NSHARDS)]
     shards += [('soup', 'extra', 'EXTRA', 3 if tier == 'quick' else 4, k) for k in range(NSHARDS)]
+    shards += [('soup', 'options', 'OPTIONS', 3 if tier == 'quick' else 4, k) for k in range(NSHARDS)]
+    shards += [('soup', 'default', 'LEGACY', 3 if tier == 'quick' else 4, k) for k in range(NSHARDS)]
     shards += [('inject', ndocs // NSHARDS, seed * 1000 + k) for k in range(NSHARDS)]
     if tier != 'quick':
         shards += [('fuzz', FUZZ_RUNS, seed * 100 + k + 1) for k in range(NSHARDS)]
@@ -180,7 +184,8 @@ def run_shard(shard, res):
         for toks in soups.enum_tokens(ALPHAS[alpha], L, k, NSHARDS):
             case = {'kind': 'soup', 'ctx': ctxname, 'tokens': list(toks)}
             check_soup(''.join(toks), ctxname, res, case)
-            if any(t in STRUCTURAL or t in EVERYTYPE_TOKENS or t in EXTRA_TOKENS for t in toks):
+            if any(t in STRUCTURAL or t in EVERYTYPE_TOKENS or t in EXTRA_TOKENS or t in OPTIONS_TOKENS
+                   or t in LEGACY for t in toks):
                 res.nontriv_distinct()
         res.exhaustive = True
     else:
